@@ -360,7 +360,16 @@ fn convert_job(ctx: &Ctx, job: usize, jobs: usize, thorough: bool) -> Stats {
     let mut rng = Rng::stream(ctx.seed, "C18.convert", job as u64);
     // name families: plain; one name a prefix of another followed by a character below '_' (digit,
     // upper case, '-'); names containing the colour suffix pattern
-    let name_sets: [[&str; 5]; 4] = [["a", "b", "c", "d", "e"], ["v1", "v10", "v1X", "v", "v100"], ["1", "10", "100", "2", "20"], ["a_c0", "a", "a_c1", "a_c", "c0"]];
+    let name_sets: [[&str; 5]; 7] = [
+        ["a", "b", "c", "d", "e"],
+        ["v1", "v10", "v1X", "v", "v100"],
+        ["1", "10", "100", "2", "20"],
+        ["a_c0", "a", "a_c1", "a_c", "c0"],
+        // names that collide under joining with a separator character
+        ["a-b", "c", "b-c", "a", "a-b-c"],
+        ["x_y", "z", "y_z", "x", "x_y_z"],
+        ["p.q", "r", "q.r", "p", "p q"],
+    ];
     let mut k = 0usize;
     // all digraphs on <= 3 vertices as edge lists, with presentation quirks
     for nv in 0..=3usize {
@@ -382,6 +391,49 @@ fn convert_job(ctx: &Ctx, job: usize, jobs: usize, thorough: bool) -> Stats {
                     es.push((names[0].to_string(), names[0].to_string()));
                 }
                 convert_case(ctx, &mut st, &es, undirected, k % 2 == 0, None, &format!("{}-{}-{}", job, k, undirected as u8));
+            }
+        }
+    }
+    // random edge lists over 4-5 vertices for every name family (under -u without exact duplicates / self-loops)
+    for fam in 0..name_sets.len() {
+        for rep in 0..(if thorough { 120 } else { 12 }) {
+            k += 1;
+            if k % jobs != job {
+                continue;
+            }
+            let names = &name_sets[fam];
+            let nv = 4 + rng.usize(2);
+            let undirected = rep % 2 == 0;
+            let mut es: Vec<(String, String)> = Vec::new();
+            for _ in 0..(2 + rng.usize(8)) {
+                let (a, b) = (rng.usize(nv), rng.usize(nv));
+                let e = (names[a].to_string(), names[b].to_string());
+                if undirected && (a == b || es.contains(&e)) {
+                    continue;
+                }
+                es.push(e);
+            }
+            convert_case(ctx, &mut st, &es, undirected, rep % 3 == 0, None, &format!("{}-rc{}", job, k));
+            st.bump("random_convert_cases");
+        }
+    }
+    // every ordered pair of distinct loop-free edges over the five names of every family, under -u:
+    // the second edge may be dropped only if it is the reverse of the first
+    for fam in 0..name_sets.len() {
+        let names = &name_sets[fam];
+        let pairs: Vec<(usize, usize)> = (0..5).flat_map(|a| (0..5).filter(move |b| *b != a).map(move |b| (a, b))).collect();
+        for (i, e1) in pairs.iter().enumerate() {
+            for (j, e2) in pairs.iter().enumerate() {
+                if i == j {
+                    continue;
+                }
+                k += 1;
+                if k % jobs != job || (!thorough && (i * 31 + j * 17 + fam) % 3 != 0) {
+                    continue;
+                }
+                let es = vec![(names[e1.0].to_string(), names[e1.1].to_string()), (names[e2.0].to_string(), names[e2.1].to_string())];
+                convert_case(ctx, &mut st, &es, true, false, None, &format!("{}-pp{}", job, k));
+                st.bump("edge_pair_convert_cases");
             }
         }
     }
@@ -459,7 +511,7 @@ pub fn run(ctx: &Ctx) -> (Stats, Spec) {
     let mut st = crate::report::merge_all(parts);
     st.exhaustive.push("every request (V <= 6, E <= max+2, -u, --dot, stdout / -o) and --complete for V <= 6; --convert on all digraphs with <= 3 vertices; --colors k (k = 0..3) on all loop-free graphs with 2..4 vertices".into());
     let spec = Spec {
-        rule: "all (V in 0..6, E in 0..max+2, -u, --dot, stdout or -o) requests and boundary edge counts for V in {11, 17, 40}, feasible ones repeated 10 [quick] / 60 [thorough] times (every run is a fresh random sample; the number of distinct outputs seen is reported), --complete with and without an edge count, missing arguments; --convert on every digraph with <= 3 vertices (shuffled rows; exact duplicates and self-loops without -u; reversed pairs under -u), --colors 0..3 on every loop-free graph with 2..4 (thorough: sampled 5) vertices, with four vertex-name families (plain; one name a prefix of another: v1 / v10 / v1X, 1 / 10 / 100; names containing the colour suffix pattern), and --colors on generated complete graphs with 11-12 vertices. distinct = (request, output); non-trivial = 0 < E < max resp. non-empty input.".into(),
+        rule: "all (V in 0..6, E in 0..max+2, -u, --dot, stdout or -o) requests and boundary edge counts for V in {11, 17, 40}, feasible ones repeated 10 [quick] / 60 [thorough] times (every run is a fresh random sample; the number of distinct outputs seen is reported), --complete with and without an edge count, missing arguments; --convert on every digraph with <= 3 vertices random edge lists over 4-5 vertices, and (under -u) ordered pairs of distinct edges over five names of every family (a third of them [quick] / all [thorough]) (shuffled rows; exact duplicates and self-loops without -u; reversed pairs under -u), --colors 0..3 on every loop-free graph with 2..4 (thorough: sampled 5) vertices, with seven vertex-name families (names that collide under joining with '-', '_' or '.'; plain; one name a prefix of another: v1 / v10 / v1X, 1 / 10 / 100; names containing the colour suffix pattern), and --colors on generated complete graphs with 11-12 vertices. distinct = (request, output); non-trivial = 0 < E < max resp. non-empty input.".into(),
         assumptions: vec![
             "uniformity of the random sample is not claimed by the property and not tested".into(),
             "self-loops and exact duplicates are not given to --convert -u / --colors (their treatment is a convention the statement does not fix)".into(),
